@@ -39,6 +39,7 @@ def gen_spec(rng, cfg):
     kinds = [("ref", "dict"), ("ref", "obj"), ("refattr", "dict")]
     counter = [0]
     boolkey = [False]
+    lod_done = [False]
 
     def key_for(ctype):
         i = counter[0]
@@ -75,14 +76,24 @@ def gen_spec(rng, cfg):
             return tuple((i, ("leaf", typ, gen_value(rng, typ))) for i in range(max(n, 2)))
         left = n
         while left > 0:
-            if depth < max_depth and left >= 2 and rng.random() < 0.35:
+            force_lod = bool(cfg.get("lod_bias")) and not lod_done[0] and depth < max_depth and left >= 4
+            if force_lod or (depth < max_depth and left >= 2 and rng.random() < 0.35):
                 sub = rng.randint(2, min(left, 4))
                 choices = ["dict", "obj"] + (["list"] if cfg.get("lists", True) else [])
-                ct = rng.choice(choices)
+                ct = "list" if force_lod else rng.choice(choices)
                 if ct == "list" and cfg.get("npkeys") and rng.random() < 0.5:
                     ct = "nplist"       # a list whose elements are addressed with numpy integer keys
                 if ct == "dict" and cfg.get("npkeys") and rng.random() < 0.4:
                     ct = "npdict"       # a dict whose string keys are addressed with numpy.str_ keys
+                if ct == "list" and left >= 4 and cfg.get("lod", True) and (force_lod or rng.random() < 0.35):
+                    lod_done[0] = True
+                    # a list of records: dicts with the same keys, so that rows[i]['gain'] exists for every i
+                    nrec = 2 if left < 6 or rng.random() < 0.6 else 3
+                    rk = [(key_for("dict"), "f" if rng.random() < 0.6 else "i") for _ in range(2)]
+                    recs = tuple((j, ("dict", tuple((k, ("leaf", t, gen_value(rng, t))) for k, t in rk))) for j in range(nrec))
+                    out.append((key_for(ctype), ("list", recs)))
+                    left -= 2 * nrec
+                    continue
                 out.append((key_for(ctype), (ct, children(ct, sub, depth + 1))))
                 left -= sub
             else:
@@ -107,7 +118,11 @@ class ExprGen:
         self.rng, self.spec, self.model, self.cfg = rng, spec, model, cfg
         self.ileaves = [l for l in spec.leaves if spec.leaf_type[l] == "i"]
         self.fleaves = [l for l in spec.leaves if spec.leaf_type[l] == "f"]
-        self.lists = [p for p, ct in spec.containers.items() if ct in ("list", "nplist")]
+        self.lists = [p for p, ct in spec.containers.items() if ct in ("list", "nplist")
+                      and all(c in spec.leaf_type for c in spec.children[p])]
+        # lists of records (every element a container with the same keys): rows[<key>][<field>]
+        self.lods = [p for p, ct in spec.containers.items() if ct == "list" and spec.children[p]
+                     and all(c in spec.containers for c in spec.children[p])]
         self.leafconts = [p for p in spec.containers
                           if all(c in spec.leaf_type for c in spec.children[p])]
         self.ops_off = set(cfg.get("ops_off", ()))
@@ -116,6 +131,7 @@ class ExprGen:
             # value semantics of numpy types are not what these workloads are about
             self.ops_off.add("cmp")
         self.no_eqne = bool(cfg.get("no_eqne", False))
+        self.keyleaf = {}          # leaf used as a computed key -> length of the list it indexes
 
     def lit(self, typ):
         rng = self.rng
@@ -144,6 +160,15 @@ class ExprGen:
             return None
         return ("ref", rng.choice(pool))
 
+    def key_leaf(self, n):
+        """an int leaf to index a list of length n with: preferably one that holds a valid index right now"""
+        m = self.model
+        good = [l for l in self.ileaves if not m.is_derived(l) and isinstance(m.val.get(l), int)
+                and not isinstance(m.val.get(l), bool) and 0 <= m.val[l] < n]
+        l = self.rng.choice(good if (good and self.rng.random() < 0.8) else self.ileaves)
+        self.keyleaf[l] = n
+        return l
+
     def gen_arg(self, typ, depth, need_ref):
         """argument of a call: CallRef prints arguments with repr(), a numpy scalar would print as np.float64(..)"""
         keep = self.cfg.get("nplit")
@@ -166,11 +191,11 @@ class ExprGen:
             return self.lit(typ)
         if typ == "i":
             k = self.pick([("arith", 4), ("bitw", 2), ("shift", 1), ("un", 2), ("abs", 1), ("divlit", 1),
-                           ("pow", 0.5), ("floor", 1), ("cmp", 1), ("ckey", 1 if self.lists else 0)])
+                           ("pow", 0.5), ("floor", 1), ("cmp", 1), ("ckey", 1 if self.lists else 0), ("ckey2", 1.5 if self.lods else 0)])
         else:
             k = self.pick([("arith", 5), ("div", 3), ("un", 1.5), ("abs", 1), ("round", 1), ("pow", 0.5), ("dmidx", 0.6 if self.cfg.get("dmidx") else 0),
                            ("call", 2 if self.spec.funcs else 0), ("vsum", 0.7 if (self.spec.funcs and self.leafconts) else 0),
-                           ("int", 1.5), ("ckey", 1 if self.lists else 0)])
+                           ("int", 1.5), ("ckey", 1 if self.lists else 0), ("ckey2", 1.5 if self.lods else 0)])
         d = depth - 1
         if k == "arith":
             o = rng.choice(["+", "-", "*"])
@@ -207,7 +232,18 @@ class ExprGen:
             cands = [p for p in self.lists if self.spec.leaf_type[self.spec.children[p][0]] == typ or typ == "f"]
             if cands and self.ileaves:
                 lst = rng.choice(cands)
-                return ("ref", lst + (("c", rng.choice(self.ileaves)),))
+                return ("ref", lst + (("c", self.key_leaf(len(self.spec.children[lst]))),))
+            return self.gen(typ, d, need_ref)
+        if k == "ckey2":
+            # a field of the record a computed index selects: the index is a dependency although it is not the last step
+            cands = []
+            for p in self.lods:
+                for c in self.spec.children[self.spec.children[p][0]]:
+                    if c in self.spec.leaf_type and (self.spec.leaf_type[c] == typ or typ == "f"):
+                        cands.append((p, c[-1]))
+            if cands and self.ileaves:
+                lst, last = rng.choice(cands)
+                return ("ref", lst + (("c", self.key_leaf(len(self.spec.children[lst]))), last))
             return self.gen(typ, d, need_ref)
         if k == "div":
             return self._bin(rng.choice(["/", "//", "%"]), "f", "f", d)
@@ -281,6 +317,7 @@ def swarm_config(rng, tier="quick", **over):
             offs.append(k)
     cfg["ops_off"] = offs
     cfg["dmidx"] = rng.random() < 0.3          # item access on the result of an expression: divmod(x, n)[i]
+    cfg["lod_bias"] = rng.random() < 0.25      # make sure there is a list of records (rows[i]['field'])
     for k, v in over.pop("weights_over", {}).items():
         w[k] = v
     cfg.update(over)
@@ -315,6 +352,11 @@ class HistoryGen:
             return None
         if kind == "setv":
             p = rng.choice(free + [l for l in m.kn_target if rng.random() < 0.5])      # a knob target may be given a new base value
+            kl = [l for l in self.eg.keyleaf if l in free and not m.is_derived(l)]
+            if kl and rng.random() < 0.2:
+                p = rng.choice(kl)                # a leaf some expression uses as a subscript
+            if p in self.eg.keyleaf and rng.random() < 0.8:
+                return ("setv", p, rng.randrange(self.eg.keyleaf[p]), rng.choice(STYLES))
             return ("setv", p, gen_value(rng, spec.leaf_type[p]), rng.choice(STYLES))
         if kind == "sete":
             p = rng.choice(free)
